@@ -26,6 +26,9 @@ mod stats;
 mod telemetry;
 mod utils;
 
+#[cfg(feature = "verif")]
+pub mod verif;
+
 use config::instrument_and_load_config;
 use election::{ElectionOutcome, elect_leader};
 use follower::follow;
